@@ -121,6 +121,12 @@ class Discretizer(BaseDiscretizer):
 
     @extend_docstring(BaseDiscretizer.fit)
     def fit(self, X: DataFrame, y: Series) -> None:  # pylint: disable=W0222
+        # a fitted discretizer is not fitted anew (checked first, so that a refused call modifies nothing)
+        assert not self.is_fitted, (
+            " - [Discretizer] This Discretizer has already been fitted. Fitting it anew could break "
+            "established orders. Please initialize a new one."
+        )
+
         # Checking for binary target and copying X
         x_copy = self._prepare_data(X, y)
 
@@ -383,6 +389,12 @@ class QualitativeDiscretizer(BaseDiscretizer):
 
     @extend_docstring(BaseDiscretizer.fit)
     def fit(self, X: DataFrame, y: Series) -> None:  # pylint: disable=W0222
+        # a fitted discretizer is not fitted anew (checked first, so that a refused call modifies nothing)
+        assert not self.is_fitted, (
+            " - [Discretizer] This Discretizer has already been fitted. Fitting it anew could break "
+            "established orders. Please initialize a new one."
+        )
+
         # checking data before bucketization
         x_copy = self._prepare_data(X, y)
 
@@ -533,6 +545,12 @@ class QuantitativeDiscretizer(BaseDiscretizer):
 
     @extend_docstring(BaseDiscretizer.fit)
     def fit(self, X: DataFrame, y: Series) -> None:  # pylint: disable=W0222
+        # a fitted discretizer is not fitted anew (checked first, so that a refused call modifies nothing)
+        assert not self.is_fitted, (
+            " - [Discretizer] This Discretizer has already been fitted. Fitting it anew could break "
+            "established orders. Please initialize a new one."
+        )
+
         # checking data before bucketization
         x_copy = self._prepare_data(X, y)
 
